@@ -1327,3 +1327,61 @@ def u_gather(ip: Interp, th: GatherTheory, std: StdRepo):
     src = ast.unparse(fi.node)
     ip.require(th.initial(), "setup:callback-registered-once-per-distinct-child-or-run-directly-for-done-ones",
                z3.BoolVal("if arg not in arg_to_fut" in src and "fut.add_done_callback(_done_callback)" in src and "for fut in done_futs:\n        _done_callback(fut)" in src and "nfuts += 1" in src), P)
+
+
+# ======================================================================================================
+# argparse: where can it print or exit?   (assumption of C18, checked mechanically on the interpreter's own argparse.py)
+# ControlParser overrides `_print_message` (writes to the session stream, ignoring `file`) and `exit` (never exits).  The
+# assumption "argparse prints only through _print_message and leaves the process only through exit" is checked on the AST:
+# ======================================================================================================
+def _argparse_unit(ip: Interp, th):
+    P = ("C18",)
+    path = stdlib_file("argparse")
+    src = open(path, encoding="utf-8").read()
+    ip.extra_functions = {"argparse.py": hashlib.sha256(src.encode()).hexdigest()[:16]}
+    tree = ast.parse(src)
+    hits = []
+
+    class Vis(ast.NodeVisitor):
+        def __init__(self):
+            self.stack = []
+
+        def visit_FunctionDef(self, n):
+            self.stack.append(n.name)
+            self.generic_visit(n)
+            self.stack.pop()
+
+        visit_ClassDef = visit_FunctionDef
+        visit_AsyncFunctionDef = visit_FunctionDef
+
+        def visit_Attribute(self, n):
+            where = ".".join(self.stack)
+            if isinstance(n.value, ast.Name) and n.value.id in ("_sys", "sys") and n.attr in ("exit", "stdout", "stderr", "__stdout__", "__stderr__"):
+                hits.append((where, "sys." + n.attr))
+            if n.attr in ("write", "writelines"):
+                hits.append((where, "." + n.attr))
+            self.generic_visit(n)
+
+        def visit_Name(self, n):
+            if n.id in ("print", "exit", "quit"):
+                hits.append((".".join(self.stack), n.id))
+
+    Vis().visit(tree)
+    st = St()
+    exits = sorted({w for w, k in hits if k == "sys.exit"})
+    writes = sorted({w for w, k in hits if k in (".write", ".writelines", "print", "exit", "quit")})
+    # sys.stdout / sys.stderr may only be *named* as the default `file` handed to _print_message (overridden: the argument is
+    # ignored) - in print_usage, print_help, exit, error, _print_message and the version action - or in FileType ('-' argument
+    # of a file-typed option; the control parser registers no FileType)
+    streams = sorted({w for w, k in hits if k in ("sys.stdout", "sys.stderr", "sys.__stdout__", "sys.__stderr__")})
+    allowed_streams = {"ArgumentParser.print_usage", "ArgumentParser.print_help", "ArgumentParser._print_message", "ArgumentParser.exit", "ArgumentParser.error", "_VersionAction.__call__", "FileType.__call__"}
+    ip.require(st, "argparse:the-process-is-left-only-through-ArgumentParser.exit(overridden)", z3.BoolVal(exits == ["ArgumentParser.exit"]), P, meta={"found": exits})
+    ip.require(st, "argparse:output-is-written-only-in-ArgumentParser._print_message(overridden)", z3.BoolVal(writes == ["ArgumentParser._print_message"]), P, meta={"found": writes})
+    ip.require(st, "argparse:stdout/stderr-are-only-named-as-defaults-for-_print_message", z3.BoolVal(set(streams) <= allowed_streams), P, meta={"found": streams})
+    # ... and the control package registers no FileType and no version action
+    uses = [q for q, fi in ip.repo.functions.items() for n in ast.walk(fi.node) if isinstance(n, ast.Name) and n.id == "FileType" or (isinstance(n, ast.Constant) and n.value == "version")]
+    ip.require(st, "repo:no-FileType-and-no-version-action-is-registered", z3.BoolVal(not uses), P, meta={"found": uses})
+
+
+UNITS.append(Unit("argparse.sinks", _argparse_unit, ("C18",), [], theory_factory=lambda: Theory(),
+                  trusted=["the AST scan sees every write/exit of argparse.py (no dynamic getattr tricks); argparse's own callees (gettext, shutil, textwrap, re) do not print"]))
